@@ -153,17 +153,22 @@ def run(chk, replay=None):
         else:
             for i in range(n):
                 sysd = M.gen_system(rng, ncomp=rng.randint(1, 4), nq=rng.randint(2, 9), depth=rng.randint(1, 3), ode=rng.random() < 0.7, typed=True)
-                text = M.to_cellml(sysd, rng, nla=rng.random() < 0.3)
+                if i % 5 == 4:
+                    # a chain of computed constants and an implicit equation that reads its end and a non-constant variable
+                    sysd = M.chain_system(rng)
+                    text = M.to_cellml(sysd, rng)
+                else:
+                    text = M.to_cellml(sysd, rng, nla=rng.random() < 0.3, implicit=rng.choice([0.0, 0.0, 0.5]))
                 cases.append((sysd, text, 'base', []))
                 r = rng.random()
                 if r < 0.15 and '<apply><eq/>' in text:
                     cases.append((None, re.sub(r'<apply><eq/>.*?</apply></math>', '</math>', text, count=1), 'missing-equation', []))
-                elif r < 0.3:
+                elif r < 0.3 and text.count('interface="public"/>') > 0:
                     k = rng.randrange(1, 1 + text.count('interface="public"/>'))
                     parts = text.split('interface="public"/>')
                     cases.append((None, 'interface="public"/>'.join(parts[:k]) + 'interface="public" initial_value="1"/>' + 'interface="public"/>'.join(parts[k:]), 'extra-initial-value', []))
                 # external marks: a random quantity; the unknown of a removed equation (no NLA block: the pruning of NLA unknowns is not modelled)
-                if not sysd.get('nla_block') and rng.random() < 0.8:
+                if not sysd.get('nla_block') and not sysd.get('implicit') and rng.random() < 0.8:
                     cand = [q for q in sysd['qs'] if q.kind != 'voi']
                     q = rng.choice(cand)
                     cases.append((None, text, 'marked', ['c%d' % q.home, q.members[q.home][0]]))
@@ -203,7 +208,10 @@ def run(chk, replay=None):
                 for w in wellformed(a, real):
                     oracle.append(('the analysed model is not well formed: ' + w, [text]))
             if sysd is not None:
-                if real['type'] != ('ode' if sysd['ode'] else 'algebraic') and not sysd.get('nla_block'):
+                imp_ = sysd.get('implicit') or set()
+                if imp_ and not sysd.get('nla_block') and real['type'] != ('dae' if sysd['ode'] else 'nla'):
+                    oracle.append(('a well-posed system with implicit equations (%s) is analysed as %s' % ('DAE' if sysd['ode'] else 'NLA', real['type']), [text]))
+                if not imp_ and real['type'] != ('ode' if sysd['ode'] else 'algebraic') and not sysd.get('nla_block'):
                     oracle.append(('a well-posed %s system is analysed as %s' % ('ODE' if sysd['ode'] else 'algebraic', real['type']), [text]))
                 if real['type'] in VALID:
                     # ground truth roles (a computed constant / algebraic variable that reads an NLA unknown is out of the ground truth's scope)
